@@ -7,6 +7,7 @@ import ast
 from ..cfg import cfg_of
 from ..model import AnalysisError, call_name, calls_in, dotted, norm, walk_no_nested
 from .. import callgraph, rules
+from .. import conds as cnd
 from . import c05
 from ._dispatch import check_dispatcher
 
@@ -278,8 +279,8 @@ def check_routing(ctx):
         R, F = routes[0], fires[0]
         key_ok = f"self._response_queues[{param}.header.system]" in R.text() and norm(next(c for c in R.calls if c05._is_route_call(c)).args[0]) == param
         ctx.ob("C06.P2", q, key_ok, "a reply is put into the queue registered under its own system bytes" if key_ok else f"`{R.text()}` does not route by the message's system bytes", key="route-key", where=f.where)
-        rc = [(norm(t), v) for t, v in cfg.dominating_conditions(R) if "_response_queues" in norm(t)]
-        fc = [(norm(t), v) for t, v in cfg.dominating_conditions(F) if "_response_queues" in norm(t)]
+        rc = sorted((t, pol) for t, pol in cnd.facts(cfg, R) if "_response_queues" in t)
+        fc = sorted((t, pol) for t, pol in cnd.facts(cfg, F) if "_response_queues" in t)
         guard = f"{param}.header.system in self._response_queues"
         ok = rc == [(guard, True)] and fc == [(guard, False)]
         ctx.ob("C06.P2", q, ok, "routed iff a requester is registered for the system bytes, otherwise handed to message_received" if ok else f"routing guards: route {rc}, event {fc} (expected `{guard}` True / False)", key="route-guard", where=f.where)
@@ -298,8 +299,7 @@ def check_routing(ctx):
     add = [n for n in cfg.real_nodes() if any(c == "self._add_message_block" for c in n.call_names())]
     rn = [n for n in cfg.real_nodes() if any(c == "self._on_connection_message_received" for c in n.call_names())]
     ok = len(add) == 1 and len(rn) == 1 and cfg.dominates(add[0], rn[0])
-    conds = [(norm(t), v) for t, v in cfg.dominating_conditions(rn[0])] if rn else []
-    ok = ok and any(("is None" in t and not v) or ("is not None" in t and v) for t, v in conds)
+    ok = ok and any(t.endswith(" is None") and not pol for t, pol in (cnd.facts(cfg, rn[0]) if rn else []))
     ctx.ob("C06.W1", f.qualname, ok, "only complete messages are handed on, each exactly once" if ok else "the completed message is not handed on exactly once after reassembly", key="complete-once", where=f.where)
 
 
